@@ -99,7 +99,7 @@ PROPS = {
     "C16": {
         "level": "exploration",
         "jobs": [{"test": "TestC16", "kind": "rapid", "quick": 300000, "thorough": 2000000}],
-        "floors": {"post-expansion": ("job:TestC16", 0.05), "message": ("job:TestC16", 0.15), "vars>=2:true": ("job:TestC16", 0.3)},
+        "floors": {"post-expansion": ("job:TestC16", 0.05), "message": ("job:TestC16", 0.15), "vars>=2:true": ("job:TestC16", 0.25), "collision:refused-at-construction": ("job:TestC16", 0.02), "collision:refused-at-expansion": ("job:TestC16", 0.0001)},
         "rule": "rapid-generated item trees and messages with element variables, ASCII variables, item variables and ellipses anywhere (also trees obtained by expanding ellipses); "
                 "every sub-item is observed too. Oracle (relational, three observers): Variables() == names read off String() by an independent reader, in order, each once (ellipses as ...); "
                 "len(ToBytes()) > 0 iff that list is empty; Size() == number of printed elements (-1 for an ASCII variable) and equals the printed [n]; message ToBytes non-empty iff complete. "
@@ -138,7 +138,7 @@ PROPS = {
         "level": "exploration",
         "jobs": [{"test": "TestC09", "kind": "rapid", "quick": 250000, "thorough": 2000000}],
         "floors": {"refused": ("job:TestC09", 0.03), "composition:steps=2": ("job:TestC09", 0.03), "composition:steps=3": ("job:TestC09", 0.03),
-                   "message": ("job:TestC09", 0.1), "hits>=1:true": ("job:TestC09", 0.5)},
+                   "message": ("job:TestC09", 0.1), "hits>=1:true": ("job:TestC09", 0.5), "key-names-variable-brought-by-inserted-value": ("job:TestC09", 0.005)},
         "rule": "rapid-generated templates (all node kinds, nesting, variables anywhere, with and without unfilled ellipses) x assignments (hits, misses, unknown keys, Go argument "
                 "types by variant, values outside the item's domain / outside declared string bounds, item-variable values that are variable-free subtrees, subtrees with own variables, or "
                 "renames) x an ordered partition of the assignment into 1..4 fills; message level for a third of the cases. Oracle: reference substitution model: FillVariables result has the "
@@ -254,7 +254,7 @@ PROPS = {
             {"test": "TestC07Known", "kind": "plain", "shards": 1},
         ],
         "fuzz": [{"fuzz": "FuzzC07", "budget_s": 180}],
-        "floors": {"declared-length-exceeds-input": ("job:TestC07", 0.2), "input>64KiB": ("job:TestC07", 0.03), "gen:chain": ("job:TestC07", 0.04), "decoded:ok": ("job:TestC07", 0.1)},
+        "floors": {"declared-length-exceeds-input": ("job:TestC07", 0.2), "input>64KiB": ("job:TestC07", 0.03), "gen:chain": ("job:TestC07", 0.04), "gen:nested-overdeclared-lists": ("job:TestC07", 0.04), "decoded:ok": ("job:TestC07", 0.1)},
         "rule": "byte strings decoded in an isolated worker process (address space limited to 4 GiB): short inputs declaring huge lengths (1/2/3 length bytes FF.., every format, nesting "
                 "depth 0..64), long valid items (64 KiB..256 KiB quick / 4 MiB thorough of A, B, BOOLEAN, I1, I2, U8, F4 and lists of small items), truncated items with patched outer "
                 "length, nested chains up to the depth cap, wide lists of lists, random bytes with and without a correct frame. Oracle: the call returns normally (an escaping panic or a "
@@ -267,7 +267,7 @@ PROPS = {
     "C17": {
         "level": "exploration",
         "race": True,
-        "jobs": [{"test": "TestC17", "kind": "rapid", "quick": 4000, "thorough": 120000, "race": True, "gomaxprocs": [2, 4, 8, 16, 3, 16, 1, 6]}],
+        "jobs": [{"test": "TestC17", "kind": "rapid", "quick": 4800, "thorough": 120000, "race": True, "shards": 48, "gomaxprocs": [2, 4, 8, 16, 3, 16, 1, 6]}],
         "parallel": 8,
         "floors": {"goroutines=8": ("job:TestC17", 0.3), "goroutines=32": ("job:TestC17", 0.05)},
         "rule": "rapid draws shared objects (an item template with variables and ellipses, a data message around it, a complete message, an SML text - sometimes with an error - and an "
